@@ -112,6 +112,19 @@ func makeCtorMatch(g *Generator, expFields []*Field, ctorParams []*Field, tagMap
 				continue
 			}
 
+			//NewDest(s.Fn(f), ...): like the field loops, the first mapper method with exactly the types wins
+			for _, fn := range g.mappingFuncList {
+				if shoot.TypeEquals(fn.Param, f.typ) && shoot.TypeEquals(fn.Result, p.typ) {
+					p.Target = f
+					p.Func = fn.Name
+					writeSet.Adds(p.Name)
+					break
+				}
+			}
+			if p.Target != nil {
+				continue
+			}
+
 			same, conv := matchType(f.typ, p.typ)
 			//NewDest(f)
 			//NewDest((type)f, ...)
@@ -125,15 +138,6 @@ func makeCtorMatch(g *Generator, expFields []*Field, ctorParams []*Field, tagMap
 				p.Target = f //ref:01; Target has different meanings
 				writeSet.Adds(p.Name)
 				continue
-			}
-
-			for _, fn := range g.mappingFuncList {
-				if shoot.TypeEquals(fn.Param, f.typ) && shoot.TypeEquals(fn.Result, p.typ) {
-					p.Target = f
-					p.Func = fn.Name
-					writeSet.Adds(p.Name)
-					continue
-				}
 			}
 
 			//todo: ...
